@@ -14,6 +14,7 @@ pub fn generate(stream: &str, seed: u64, n: usize, emit: &mut dyn FnMut(String))
 		"ser" | "ser-valid" | "ser-mut" | "ser-sink" => ser::generate(stream, seed, n, emit),
 		"crc" => crc::generate(seed, n, emit),
 		"rt" => ser::generate_rt(seed, n, emit),
+		"single" => ser::generate_single(seed, n, emit),
 		"schema" | "schema-bad" => schema::generate(stream, seed, n, emit),
 		"graph" | "graph-wild" => schema::generate_graph(stream, seed, n, emit),
 		"reuse" => ser::generate_reuse(seed, n, emit),
@@ -34,6 +35,7 @@ pub fn run_line(line: &str) -> String {
 		"ser" => ser::run(line),
 		"crc" => crc::run(line),
 		"rt" => ser::run_rt(line),
+		"single" => ser::run_single(line),
 		"schema" => schema::run(line),
 		"graph" => schema::run_graph(line),
 		"reuse" => ser::run_reuse(line),
